@@ -17,7 +17,7 @@ CHECKS = {
     "C10": (
         "Hypothesis RuleBasedStateMachine (model-based stateful testing) + exhaustive enumeration of short operation sequences; full-snapshot invariant after every step",
         "Histories on a GFF3 or a GTF-importer database over update (five strategies; list / generator / text-path input; checklines), delete (ids, Features, missing, relation-only ids), add_relation (optionally with child_func), reopen, empty "
-        "update and a faulty update whose source raises after k items are applied to a real file database and to a reference model (MergeModel + set "
+        "update and a faulty update whose source raises after k items (during dialect inference or mid-import; followed by one more id-less update on the same handle, whose keys must be new) are applied to a real file database and to a reference model (MergeModel + set "
         "arithmetic for relations incl. the level-2 closure); after every step the features, relations, directives, dialect and id counters must "
         "equal the model (also through look-ups, counts and distinct values on the long-lived handle), auto ids never recur, and with make_backup the .bak file must be the complete pre-operation database - also when the "
         "operation then fails. All sequences up to depth 3 (quick) / 4 (thorough) over two fixed 8-operation alphabets (general, merge-centred) are enumerated as well.",
@@ -58,7 +58,7 @@ CHECKS = {
         "a greedy reference that has its own implementation of each shipped criterion, and (default criteria) with an independent sweep of maximal "
         "overlapping-or-adjacent runs; outputs must partition the input objects, span min..max of their children, carry fresh ids, leave inputs and "
         "database untouched, and re-merging the same objects (same or other criteria, or the outputs) must agree again. merge_all and children_bp "
-        "are compared on generated databases (incl. empty featuretypes_groups, stored bins, relations of deleted members, merged outputs written back with update() while the merge() generator is consumed, and a later merge() on the same handle).",
+        "are compared on generated databases (incl. empty featuretypes_groups, stored bins, relations of deleted members, merged outputs written back with update() while the merge() generator is consumed, and a later merge() on the same handle); criteria are also passed as one-shot iterables and inputs may carry extra columns.",
         "Criteria reflexive; exhaustive only for the stated scope.",
         "DESIGN.md section 4 C16",
     ),
@@ -84,7 +84,7 @@ CHECKS = {
         "Hypothesis-generated feature sets with bin-boundary-biased coordinates; brute-force filter oracle over region()/limit= query forms",
         "Databases of 3-25 features placed at +-2 of 2^17*8^k bin edges and of 2^29 are queried 12-20 times each through region() (tuple, string, "
         "Feature, keyword, seqid-less, one-sided forms; strand, featuretype, completely_within) and through limit= of all_features, "
-        "features_of_type, children and parents; every answer must equal the brute-force filter of the generated list (one-sided: boundary features either way). Each query is followed by its twin with completely_within toggled, a generated shift may be applied by a transform at import, and the whole list is asked again after update() added features (some beyond the old extent) through the same handle.",
+        "features_of_type, children and parents; every answer must equal the brute-force filter of the generated list (one-sided: boundary features either way); a second leg does the same against the rows actually stored in a GTF database whose inferred features changed through update(). Each query is followed by its twin with completely_within toggled, a generated shift may be applied by a transform at import, and the whole list is asked again after update() added features (some beyond the old extent) through the same handle.",
         "Integer coordinates with 1 <= start <= end; brute-force predicates in gfv/props/c06.py.",
         "DESIGN.md section 4 C06",
     ),
@@ -101,7 +101,7 @@ CHECKS = {
         "Hypothesis-generated Parent DAGs rendered as permuted GFF3 files; reference-graph oracle over every (feature, level, featuretype, order_by) query",
         "DAGs up to 12 features and depth 4 with multi-parent, shared and dangling Parent values and exotic ids are written in a generated line order; "
         "children()/parents() of every stored feature at level None/1/2/3 with featuretype and order_by variants must equal the reference graph's "
-        "sets exactly (no repeats, never the feature itself), dangling parents raise FeatureNotFoundError, iter_by_parent_childs agrees; in a share of cases the tail of the file arrives later through update(), also written in another separator dialect; files may mix comma lists with repeated Parent keys.",
+        "sets exactly (no repeats, never the feature itself), dangling parents raise FeatureNotFoundError, iter_by_parent_childs agrees; in a share of cases the tail of the file arrives later through update(), also written in another separator dialect or through a second handle on the same file; files may mix comma lists with repeated Parent keys; a second leg imports files of 450-2800 features (verbose on/off) and compares the whole relation table with the reference closure.",
         "Reference graph in gfv/props/c02.py reference(); ids unique.",
         "DESIGN.md section 4 C02",
     ),
@@ -134,7 +134,7 @@ CHECKS = {
         "Hypothesis-generated annotation files rendered from an independent text model; round-trip / inverse oracle + reopen + re-import metamorphic relation",
         "Files of 1-12 lines in every grammar dialect (four attribute styles: key=value, key \"value\", key value, key=\"value\") are rendered from structured records; after create_db the rows must equal the records "
         "(columns, extras always; ordered attributes and byte-identical printing whenever the dialect-observation model says the inspected "
-        "window recovers the dialect), also after close/reopen, after re-importing the printed lines, when the iteration is interleaved with other queries, and when the same objects are printed twice. Sampling: thousands of files per run.",
+        "window recovers the dialect), also after close/reopen, after re-importing the printed lines, when the iteration is interleaved with other queries, when the same objects are printed twice (their attributes unchanged by printing), and for inputs named by a file:// URL (plain or gzip). Sampling: thousands of files per run.",
         "Text model/renderer and the dialect-observation model (gfv/textmodel.py) are trusted; domain restrictions of DESIGN section 3.",
         "DESIGN.md section 4 C01, Appendix A.2",
     ),
